@@ -15,10 +15,10 @@ EXPLANATION = (
     'empty reply leaves before the restorer, a parse error is converted into exit(non-zero) '
     'with no effect after it; (R13.7) a range "a-b" of the reply iterates range(int(a), '
     'int(b) + 1) with a and b the first and second piece in the order typed (a reversed '
-    'range selects nothing).  Does not decide the reply grammar over all strings nor that '
+    'range selects nothing); (R13.8) what int() converts into an index is the piece of the reply as typed (at most strip()ped of blanks), never a rewritten piece.  Does not decide the reply grammar over all strings nor that '
     'sorted() yields the requested order.')
 ASSUMPTIONS = ['int(), range(), sorted(), enumerate() behave as documented']
-MINIMUM = {'R13.1': 4, 'R13.2': 2, 'R13.3': 3, 'R13.4': 2, 'R13.5': 1, 'R13.6': 1, 'R13.7': 1}
+MINIMUM = {'R13.1': 4, 'R13.2': 2, 'R13.3': 3, 'R13.4': 2, 'R13.5': 1, 'R13.6': 1, 'R13.7': 1, 'R13.8': 2}
 
 
 
@@ -303,6 +303,44 @@ def check(ctx):
                            '(e.g. the middle of "0-7-1") is neither parsed nor range-checked, '
                            'so an invalid reply restores entries' % (
                                sorted(indexed[sid]), n.src))
+    # ---- R13.8 the number an index stands for is int() of the piece as typed: int()
+    # itself tolerates blanks around a number and nothing else, so "0 1" is invalid; a
+    # piece rewritten before conversion (replace, translate, lstrip(chars) ...) makes some
+    # invalid reply parse -- and restore -- instead of being refused
+    def as_typed(t):
+        t = strip(t)
+        while isinstance(t, MCall) and t.name in ('strip', 'lstrip', 'rstrip') and (
+                not t.args or all(isinstance(strip(a), Const) and
+                                  (strip(a).value is None or
+                                   (isinstance(strip(a).value, str) and
+                                    strip(a).value.strip() == '')) for a in t.args)):
+            t = strip(t.recv)
+        if is_call(t, 'input', 'raw_input'):
+            return True
+        if isinstance(t, Elem):
+            return as_typed_list(t.container)
+        if isinstance(t, Sub):
+            return as_typed_list(t.base)
+        return False
+
+    def as_typed_list(t):
+        t = strip(t)
+        return isinstance(t, MCall) and t.name in ('split', 'rsplit') and \
+            all(as_typed(a) for a in flat(t.recv))
+    seen8 = set()
+    for n in b.nodes('ext'):
+        if n.data['fn'] != 'int' or not n.data['args'] or not from_prompt(n.data['args'][0]):
+            continue
+        for a in flat(n.data['args'][0]):
+            if cid(a) in seen8:
+                continue
+            seen8.add(cid(a))
+            ctx.ob('R13.8', 'an index is int() of the reply piece as typed', as_typed(a),
+                   node=n,
+                   message='the text converted into an index is %s, not the piece of the '
+                           'reply as typed: a reply that is not a number or a range of '
+                           'numbers (e.g. "0 1") is rewritten into one and restores '
+                           'entries instead of being refused' % short(a, 140))
     # ---- R13.4
     inputs = [n for n in b.nodes('ext') if n.data['fn'] in ('input', 'raw_input')]
     ctx.require(inputs, 'R13.4: no prompt')
